@@ -73,7 +73,8 @@ class Layout:
 
 
 def build(tables, file_objects=None, *, hdr_seqs=(2, 1), sigs=None, version=0x400, extra_objects=(), objtab_chain=False,
-          table_size=0x1000, more_objtabs=None, stale_header_differs=True, chain=1, chain_rng=None, more_sigs=None, alignment=ALIGN):
+          table_size=0x1000, more_objtabs=None, stale_header_differs=True, chain=1, chain_rng=None, more_sigs=None, alignment=ALIGN,
+          stale_header=None):
     """tables: list of {"idx", "seq", "entries": [bytes...]} in object-table order (entries already encoded, with resolved
     parent offsets).  file_objects: {offset_placeholder_key: bytes} handled by the caller through Layout.
     Returns bytes."""
@@ -134,6 +135,16 @@ def build(tables, file_objects=None, *, hdr_seqs=(2, 1), sigs=None, version=0x40
     # alignment: the allocation unit the writer used; decoding does not depend on it
     out[0] = file_header(hdr_seqs[0], sig=sigs.get("head1", SIG_HEADER), version=version, log_off=lo1, alignment=alignment)
     out[0x1000] = file_header(hdr_seqs[1], sig=sigs.get("head2", SIG_HEADER), version=version, log_off=lo2, alignment=alignment)
+    if stale_header and hdr_seqs[0] != hdr_seqs[1]:
+        # the superseded header copy is not consulted: it may be of an older version, carry another signature, or never have been written
+        k = 0x1000 if hdr_seqs[0] > hdr_seqs[1] else 0
+        lo_seq = min(hdr_seqs)
+        if stale_header == "blank" and max(hdr_seqs) > 0:
+            out[k] = bytes(len(out[k]))
+        elif stale_header == "old-version":
+            out[k] = file_header(lo_seq, version=0x300, log_off=0x3800, alignment=alignment)
+        elif stale_header == "other-signature":
+            out[k] = file_header(lo_seq, sig=0x0BADF00D, version=version, log_off=0x3800, alignment=alignment)
     end = max(o + len(b) for o, b in out.items())
     if end > (1 << 30):
         # objects far into the file (file objects / key tables beyond 4 GiB): a sparse virtual file instead of bytes
